@@ -2,7 +2,7 @@
    Property theorems only: each is closed by [exact] of a lemma proved in
    Words/Abs/Observers/Ctors/History/Extras.v, followed by Print Assumptions.
 
-   Quantification: every width Bits >= 1 and every word width w = 2^k (k arbitrary: 8, 16, 32, 64
+   Quantification: every width Bits >= 1 (Bits = 0: C17_zero_width) and every word width w = 2^k (k arbitrary: 8, 16, 32, 64
    bit words are k = 3..6; etl::bitset<Bits> is k = 6), every history over the alphabet of Ops.v.
    Vocabulary (Abs.v):
      getbit k ws i = bit (i mod w) of word (i / w) of the storage array ws
@@ -11,7 +11,7 @@
    The word boundary (last word with or without padding, position in the last word or before) is a
    case split inside the proofs, never a sample. *)
 From Tetl Require Import Lib.Base C17.Ops C17.Model C17.Spec C17.Words C17.Abs C17.Observers C17.Ctors
-  C17.History C17.Extras C17.NonVac.
+  C17.History C17.Extras C17.NonVac C17.Zero.
 From Coq Require Import NArith.
 Local Open Scope nat_scope.
 
@@ -116,12 +116,25 @@ Theorem C17_popcount_fallback : forall w x, bnd w x ->
 Proof. exact popcount_fallback_both. Qed.
 Print Assumptions C17_popcount_fallback.
 
+(* the width 0 (std::bitset<0> is a valid type): every history prints what std::bitset<0> prints (every positional
+   member is stopped by its precondition where std throws, to_string() is empty, all() and none() are true), and the
+   storage stays empty.  Together with C17_history_refines: EVERY width Bits >= 0. *)
+Theorem C17_zero_width : forall k ops,
+  run_m 0 (2 ^ k) (init_m 0 (2 ^ k)) ops = s_run 0 (s_init 0) ops
+  /\ forall o, match step_m 0 (2 ^ k) (init_m 0 (2 ^ k)) o with
+               | Ok (st', _) => st' = ([], [])
+               | Contract => True
+               | _ => False
+               end.
+Proof. exact zero_width_refines. Qed.
+Print Assumptions C17_zero_width.
+
 (* non-vacuity: the hypotheses are satisfiable and the conclusions non-trivial at widths one below
    a word multiple, at it and above it: concrete histories (string constructor "1000001" resp. 2^63+1,
    flip all, set the top bit, proxy copy, a failing position, a foreign character, pos > size, proxy copy
    within one object (different bits, the same bit, a failing source), x op= x, the char const* constructor
    with a NUL inside the array (uncounted: ends there; counted: a foreign character unless zero is NUL))
-   evaluated on model and spec *)
+   evaluated on model and spec; and the width 0 (empty to_string, all() and none() true, every position fails) *)
 Example C17_nonvacuous :
   run_m 7 8 (init_m 7 8) (nv_ops 6) = s_run 7 (s_init 7) (nv_ops 6)
   /\ run_m 64 64 (init_m 64 64) (nv_ops 63) = s_run 64 (s_init 64) (nv_ops 63)
@@ -133,5 +146,10 @@ Example C17_nonvacuous :
         Some (63, false, []); Some (63, false, []); None; Some (63, false, []); Some (63, false, []);
         Some (2, false, []); None; Some (1, false, []); Some (0, false, [])]
   /\ fst (final_state 65 6 (init_m 65 64) (firstn 13 (nv_ops 64))) = [18446744073709551614; 1]%N
-  /\ fst (final_state 65 6 (init_m 65 64) (firstn 21 (nv_ops 64))) = [2; 0]%N.
+  /\ fst (final_state 65 6 (init_m 65 64) (firstn 21 (nv_ops 64))) = [2; 0]%N
+  /\ map (option_map (fun r => (o_string (fst r), o_count (fst r), o_all (fst r), o_none (fst r), o_ullong (fst r))))
+         (run_m 0 8 (init_m 0 8) [OSetAll; OSet 0 true; OStr [49]%N 0 18446744073709551615 48 49;
+                                  OStr [50]%N 0 18446744073709551615 48 49; ONot; OTest 0])
+     = [Some ([], 0, true, true, Some 0%N); None; Some ([], 0, true, true, Some 0%N); None;
+        Some ([], 0, true, true, Some 0%N); None].
 Proof. exact nonvacuous. Qed.
